@@ -19,6 +19,13 @@ from vakt.storage.sql.model import Base
 MODULE = 'Props.C15'
 THEOREMS = ['Vakt.C15.op_committed_and_clean', 'Vakt.C15.run_clean', 'Vakt.C15.crash_anywhere',
             'Vakt.C15.other_session_sees', 'Vakt.C15.no_undo_of_returned']
+# obligations over what was translated from /repo/vakt/storage/sql/__init__.py in this run: SQLStorage.add / update / delete (and get),
+# the session calls made explicit as effects on (committed state, view, dirty), are the model's SqlSession.step - which failures are
+# followed by a rollback, and that a mutation that returns has committed (lean/Gen/EquivSql.lean)
+EXTRA_BUILD = ['+Gen.EquivSql']
+GEN_IMPORTS = ['Gen.EquivSql']
+GEN_THEOREMS = ['Vakt.GenEquiv.gen_sql_add', 'Vakt.GenEquiv.gen_sql_update', 'Vakt.GenEquiv.gen_sql_delete',
+                'Vakt.GenEquiv.gen_sql_get', 'Vakt.GenEquiv.translatedSql_covers']
 FLOOR = {'quick': 40, 'thorough': 500}
 ASSUMPTIONS = ['SQLite + SQLAlchemy transaction semantics are trusted; durability against OS / power failure and other '
                'database engines are not exhibited',
